@@ -53,7 +53,11 @@ def materialise(cfg, d):
             write_workflow(os.path.join(d, seen_wf[key]), ob["wf"])
         wfp = seen_wf[key]
         pipelines[ob["o"]] = {"workflow": wfp, "ingest_demand": ob["ing"]}
-        observations.append({"name": ob["o"], "start": ob["est"] * mult,
+        K = cfg.get("K", 1)
+        start = ob.get("estT", ob["est"] * K) * mult
+        if start % K:
+            raise ValueError("harness: planned start not representable in the configuration file")
+        observations.append({"name": ob["o"], "start": start // K,
                              "duration": ob["dur"] * mult,
                              "instrument_demand": ob["demand"],
                              "data_product_rate": ob["rate"] / mult})
@@ -221,7 +225,7 @@ def run(cfg, segs=None, perm_seed=None, perm_kinds=None, budget=None, full=True,
                 rec = {"t": env.ts(env.now), "lab": lab, "seg": state["seg"], "st": st}
                 df = sim.monitor.df
                 if len(df) > state["rows"]:
-                    rec["rows"] = [row_view(df, i) for i in range(state["rows"], len(df))]
+                    rec["rows"] = [row_view(df, i, env.ts) for i in range(state["rows"], len(df))]
                     state["rows"] = len(df)
                 else:
                     rec["rows"] = []
@@ -298,7 +302,7 @@ def run(cfg, segs=None, perm_seed=None, perm_kinds=None, budget=None, full=True,
             end["t"] = env.ts(env.now)
             end["st"] = st
             df = sim.monitor.df
-            end["rows"] = [row_view(df, i) for i in range(len(df))]
+            end["rows"] = [row_view(df, i, env.ts) for i in range(len(df))]
             end["log"] = log_view(sim.monitor.events, 0, env.ts)
             end["loglen_at_last_step"] = state["log"]
             tt = []
